@@ -53,7 +53,7 @@ impl Engine for C12 {
             &case.sched,
             &case.io,
             None,
-            max_steps(&case.tier),
+            steps_for(case),
             &out_path,
         );
         out.absorb(&r, true);
